@@ -75,7 +75,8 @@ def check_case(case, out, part, variant):
                 if not need <= set(got):
                     fails.append(("C17", "domain/value-lost", "variable %s of type %s ranges over %s after reading, but %s occur in solutions" % (
                         v, d["type"], sorted(rev.get(g, g) for g in got), sorted(rev.get(g, g) for g in need))))
-            unconstrained = not any(v in [x.split(".")[0] for x in c01.names_in(c)] for c in case["cons"])
+            aliases = {v} | {f for f, flds in case.get("atoms", {}).items() if flds["a"][1] == v}      # a fact's parameter is the variable that was passed
+            unconstrained = not any(aliases & {x.split(".")[0] for x in c01.names_in(c)} for c in case["cons"])
             if unconstrained and set(got) != want:
                 fails.append(("C17", "domain/unconstrained-variable", "unconstrained variable %s of type %s ranges over %s, expected exactly %s" % (v, d["type"], sorted(rev.get(g, g) for g in got), sorted(d["domain"]))))
         else:
